@@ -41,6 +41,42 @@ Proof.
   rewrite H. reflexivity.
 Qed.
 
+
+Fixpoint qsum (l:list Q) : Q := match l with [] => 0 | x :: r => x + qsum r end.
+
+Lemma xchain_eval ev ei l : forall acc, xeval ev ei (xchain acc l) == xeval ev ei acc + qsum (map (xeval ev ei) l).
+Proof. induction l as [|a l IH]; intros acc; cbn [xchain map qsum]; [ring|]. rewrite IH. cbn [xeval]. ring. Qed.
+
+Lemma xchain_lines l : forall acc n, In n (xlines (xchain acc l)) <-> In n (xlines acc) \/ exists a, In a l /\ In n (xlines a).
+Proof.
+  induction l as [|a l IH]; intros acc n; cbn [xchain].
+  - split; [auto|intros [H|(a & [] & _)]; exact H].
+  - rewrite IH. cbn [xlines]. rewrite in_app_iff. split.
+    + intros [[H|H]|(b & Hb & Hn)]; [auto|right; exists a; split; [left; reflexivity|exact H]|right; exists b; split; [right; exact Hb|exact Hn]].
+    + intros [H|(b & [<-|Hb] & Hn)]; [left; left; exact H|left; right; exact Hn|right; exists b; auto].
+Qed.
+Lemma xchain_inps l : forall acc n, In n (xinps (xchain acc l)) <-> In n (xinps acc) \/ exists a, In a l /\ In n (xinps a).
+Proof.
+  induction l as [|a l IH]; intros acc n; cbn [xchain].
+  - split; [auto|intros [H|(a & [] & _)]; exact H].
+  - rewrite IH. cbn [xinps]. rewrite in_app_iff. split.
+    + intros [[H|H]|(b & Hb & Hn)]; [auto|right; exists a; split; [left; reflexivity|exact H]|right; exists b; split; [right; exact Hb|exact Hn]].
+    + intros [H|(b & [<-|Hb] & Hn)]; [left; left; exact H|left; right; exact Hn|right; exists b; auto].
+Qed.
+
+Lemma slookup_sset_same {A} k (a:A) l : slookup k (sset k a l) = Some a.
+Proof.
+  induction l as [|[k' a'] r IH]; cbn.
+  - rewrite String.eqb_refl. reflexivity.
+  - destruct (String.eqb k k') eqn:E; cbn; rewrite ?String.eqb_refl, ?E; auto.
+Qed.
+
+Lemma str_of_item it s : item_str it = Some s -> str_of it = RVal s.
+Proof. destruct it; cbn; try discriminate; intros H; inversion H; reflexivity. Qed.
+
+Lemma bind_val {A B} (a:A) (k:A -> res B) : (x <- RVal a ;; k x) = k a.
+Proof. reflexivity. Qed.
+
 Lemma typed_float_num p q0 q : typed_value (TFloat p) (PNum q0) = RVal (PNum q) -> q = qround p q0.
 Proof. unfold typed_value. cbv beta iota zeta. intros H. inversion H. reflexivity. Qed.
 Lemma typed_float_none p q : typed_value (TFloat p) PNone = RVal (PNum q) -> q = 0.
@@ -71,6 +107,85 @@ Lemma eval_read_const m k s r : eval c (S (S m)) (ERead k [NExp (EConst (PStr s)
 Proof. cbn [eval bind str_of]. rewrite append_nil_r. reflexivity. Qed.
 Lemma exec_return m e r : exec c (S m) [SReturn e] r = (v <- eval c m e r ;; RVal (r, SigReturn v)).
 Proof. reflexivity. Qed.
+
+
+Definition ename (m:nat) (r:env) : list npart -> res string :=
+  fix go (l:list npart) : res string :=
+    match l with
+    | [] => RVal ""
+    | NLit s :: t => rest <- go t ;; RVal (s ++ rest)
+    | NExp x :: t => v <- eval c m x r ;; s <- str_of v ;; rest <- go t ;; RVal (s ++ rest)
+    end.
+Lemma eval_read m k parts r : eval c (S m) (ERead k parts) r = (s <- ename m r parts ;; do_read c k s).
+Proof. reflexivity. Qed.
+Definition elist (m:nat) (r:env) : list expr -> res (list pv) :=
+  fix go (l:list expr) : res (list pv) :=
+    match l with [] => RVal [] | x :: t => v <- eval c m x r ;; vs <- go t ;; RVal (v :: vs) end.
+Lemma eval_elist m l r : eval c (S m) (EList l) r = (vs <- elist m r l ;; RVal (PList vs)).
+Proof. reflexivity. Qed.
+
+Lemma ename_with x s it m r : forall parts nm,
+  name_with x s parts = Some nm -> slookup x r = Some it -> str_of it = RVal s ->
+  ename (S m) r parts = RVal nm.
+Proof.
+  induction parts as [|p t IH]; intros nm Hn Hx Hs; cbn [name_with] in Hn.
+  - inversion Hn. reflexivity.
+  - destruct p as [lit|e].
+    + destruct (name_with x s t) as [rest|] eqn:E; [|discriminate]. cbn in Hn. inversion Hn; subst.
+      cbn [ename]. fold (ename (S m) r). rewrite (IH rest eq_refl Hx Hs). reflexivity.
+    + destruct e; try discriminate. destruct (String.eqb x x0) eqn:Ex; [|discriminate]. apply String.eqb_eq in Ex. subst x0.
+      destruct (name_with x s t) as [rest|] eqn:E; [|discriminate]. cbn in Hn. inversion Hn; subst.
+      cbn [ename]. fold (ename (S m) r).
+      change (eval c (S m) (EVar x) r) with (match slookup x r with Some v => RVal v | None => RCrash CName end).
+      rewrite Hx. cbn [bind]. rewrite Hs. cbn [bind]. rewrite (IH rest eq_refl Hx Hs). reflexivity.
+Qed.
+
+Lemma sum_fold : forall (l:list Q) (a:Q),
+  exists q, fold_left (fun acc x => a0 <- acc ;; arith OAdd a0 x) (map PNum l) (RVal (PNum a)) = RVal (PNum q) /\ q == a + qsum l.
+Proof.
+  induction l as [|x l IH]; intros a; cbn [map fold_left qsum].
+  - exists a. split; [reflexivity|ring].
+  - cbn [bind]. change (arith OAdd (PNum a) (PNum x)) with (RVal (PNum (Qred (a + x)))).
+    destruct (IH (Qred (a + x))) as (q & E & Hq). exists q. split; [exact E|].
+    rewrite Hq, Qred_correct. ring.
+Qed.
+Lemma sum_nonempty q0 qs : exists q, call_fn c FSum [PList (map PNum (q0 :: qs))] = RVal (PNum q) /\ q == q0 + qsum qs.
+Proof.
+  cbn [call_fn map fold_left bind].
+  change (arith OAdd (PInt 0) (PNum q0)) with (RVal (PNum (Qred (inject_Z 0 + q0)))).
+  destruct (sum_fold qs (Qred (inject_Z 0 + q0))) as (q & E & Hq). exists q. split; [exact E|].
+  rewrite Hq, Qred_correct. change (inject_Z 0) with 0. ring.
+Qed.
+
+(* the comprehension over a constant list reads one line per item *)
+Lemma comp_const_fold m r parts x ev : forall (items:list pv) (xs:list xexp) (acc:list pv),
+  comp_names x parts items = Some xs ->
+  (forall a, In a xs -> forall n, In n (xlines a) -> exists q, slookup (qualify c n) (x_vals c) = Some (PNum q) /\ q == ev n) ->
+  exists qs,
+    fold_left (fun acc it =>
+                 a <- acc ;;
+                 keep <- RVal true ;;
+                 if keep then v <- eval c (S (S m)) (ERead RV parts) (sset x it r) ;; RVal (a ++ [v])%list else RVal a)
+              items (RVal acc) = RVal (acc ++ map PNum qs)%list
+    /\ List.length qs = List.length xs /\ forall ei, qsum qs == qsum (map (xeval ev ei) xs).
+Proof.
+  induction items as [|it items IH]; intros xs acc Hc Hok; unfold comp_names in Hc; cbn [omap] in Hc.
+  - inversion Hc; subst. exists []. cbn. rewrite app_nil_r. split; [reflexivity|]. split; [reflexivity|]. intros; reflexivity.
+  - destruct (item_str it) as [s|] eqn:Es; [|discriminate].
+    destruct (name_with x s parts) as [nm|] eqn:En; [|discriminate]. cbn [option_map] in Hc.
+    fold (comp_names x parts items) in Hc.
+    destruct (comp_names x parts items) as [r0|] eqn:Er; [|discriminate]. inversion Hc; subst. clear Hc.
+    destruct (Hok (XLine nm) (or_introl eq_refl) nm (or_introl eq_refl)) as (q & Hq & Eq).
+    cbn [fold_left]. rewrite !bind_val.
+    rewrite eval_read, (ename_with x s it m (sset x it r) parts nm En (slookup_sset_same _ _ _) (str_of_item _ _ Es)).
+    rewrite bind_val. unfold do_read. rewrite Hq. rewrite bind_val.
+    destruct (IH r0 (acc ++ [PNum q])%list eq_refl) as (qs & Ef & El & Es2).
+    { intros a Ha. apply Hok. right. exact Ha. }
+    exists (q :: qs). split; [|split].
+    + rewrite Ef. rewrite <- app_assoc. reflexivity.
+    + cbn. rewrite El. reflexivity.
+    + intros ei. cbn [qsum map xeval]. rewrite (Es2 ei), Eq. reflexivity.
+Qed.
 
 (* the store holds money values for the lines and inputs that are read *)
 Definition reads_ok (ev ei:string -> Q) (ls is_:list string) : Prop :=
@@ -168,8 +283,63 @@ Proof.
     destruct (num_cmp op qa qb).
     + exists qt. split; assumption.
     + exists qe. split; assumption.
-  - (* calls: max / min / float *)
+  - (* calls: sum / max / min / float *)
     destruct f; try discriminate.
+    + (* sum over an explicit list, or over a comprehension on a constant list *)
+      assert (Hel : forall a0 xs, In a0 xs -> (forall nm, In nm (xlines a0) -> exists x0 xr, xs = x0 :: xr) -> True) by (intros; exact I).
+      clear Hel.
+      repeat match type of Hc with context[match ?v with _ => _ end] => destruct v eqn:?; try discriminate end;
+        inversion Hc; subst; clear Hc.
+      * (* EList *)
+        match goal with E : omap (xcomp n) _ = Some (?x0 :: ?xr) |- _ => rename E into Eo; set (X0 := x0) in *; set (XR := xr) in * end.
+        destruct m as [|m']; [lia|].
+        assert (Hall : forall a', In a' (X0 :: XR) -> reads_ok ev ei (xlines a') (xinps a')).
+        { intros a' Ha'. destruct Hok as [Hl Hi]. split; intros nm Hn.
+          - apply Hl. apply xchain_lines. destruct Ha' as [<-|Ha']; [left; exact Hn|right; exists a'; auto].
+          - apply Hi. apply xchain_inps. destruct Ha' as [<-|Ha']; [left; exact Hn|right; exists a'; auto]. }
+        assert (HL : forall lst xs, omap (xcomp n) lst = Some xs -> (forall a', In a' xs -> reads_ok ev ei (xlines a') (xinps a')) ->
+                     exists qs, elist m' r lst = RVal (map PNum qs) /\ qsum qs == qsum (map (xeval ev ei) xs) /\ List.length qs = List.length xs).
+        { induction lst as [|ee ll IHll]; intros xs Ho Hr; cbn [omap] in Ho.
+          - inversion Ho; subst. exists []. repeat split; reflexivity.
+          - destruct (xcomp n ee) as [a1|] eqn:Ea; [|discriminate].
+            destruct (omap (xcomp n) ll) as [r0|] eqn:Ell; [|discriminate]. inversion Ho; subst.
+            destruct (IH ee a1 Ea m' r ev ei ltac:(lia) (Hr a1 (or_introl eq_refl))) as (q1 & Eq1 & Qq1).
+            destruct (IHll r0 eq_refl (fun a' Ha' => Hr a' (or_intror Ha'))) as (qs & E2 & S2 & L2).
+            exists (q1 :: qs). split; [|split].
+            + cbn [elist]. fold (elist m' r). rewrite Eq1, bind_val, E2, bind_val. reflexivity.
+            + cbn [qsum map]. rewrite S2, Qq1. reflexivity.
+            + cbn. rewrite L2. reflexivity. }
+        destruct (HL _ _ Eo Hall) as (qs & El & Sq & Lq).
+        destruct qs as [|q0 qs']; [cbn in Lq; discriminate|].
+        rewrite eval_call1, eval_elist, El, !bind_val.
+        destruct (sum_nonempty q0 qs') as (q & Eq & Hq). exists q. split; [exact Eq|].
+        rewrite Hq, xchain_eval. cbn [qsum map] in Sq. exact Sq.
+      * (* comprehension over a constant list *)
+        match goal with E : comp_names _ _ _ = Some (?x0 :: ?xr) |- _ => rename E into Eo; set (X0 := x0) in *; set (XR := xr) in * end.
+        destruct m as [|[|[|m3]]]; try lia.
+        rewrite eval_call1.
+        match goal with |- context[eval c (S (S (S m3))) (EComp (ERead RV ?parts) ?x (EConst (PList ?items)) None) r] =>
+          change (eval c (S (S (S m3))) (EComp (ERead RV parts) x (EConst (PList items)) None) r)
+            with (s0 <- eval c (S (S m3)) (EConst (PList items)) r ;;
+                  match (match s0 with PStr str => PList (map (fun ch => PStr (String ch "")) (list_ascii_of_string str)) | _ => s0 end) with
+                  | PList its | PTuple its =>
+                      a0 <- fold_left (fun acc it =>
+                                   a0 <- acc ;;
+                                   keep <- RVal true ;;
+                                   if keep then v <- eval c (S (S m3)) (ERead RV parts) (sset x it r) ;; RVal (a0 ++ [v])%list else RVal a0)
+                                its (RVal []) ;;
+                      RVal (PList a0)
+                  | _ => RCrash CTypeError
+                  end);
+          rewrite eval_const, bind_val; cbv beta iota;
+          destruct (comp_const_fold m3 r parts x ev items (X0 :: XR) [] Eo) as (qs & Ef & Lq & Sq)
+        end.
+        { intros a' Ha' nm Hn. destruct Hok as [Hl _]. apply Hl. apply xchain_lines.
+          destruct Ha' as [<-|Ha']; [left; exact Hn|right; exists a'; auto]. }
+        rewrite Ef, !bind_val. cbn [app].
+        destruct qs as [|q0 qs']; [cbn in Lq; discriminate|].
+        destruct (sum_nonempty q0 qs') as (q & Eq & Hq). exists q. split; [exact Eq|].
+        rewrite Hq, xchain_eval. pose proof (Sq ei) as S1. cbn [qsum map] in S1. exact S1.
     + destruct args as [|e1 [|e2 [|]]]; try discriminate.
       destruct (xcomp n e1) as [x|] eqn:E1; [|discriminate].
       destruct (xcomp n e2) as [y|] eqn:E2; [|discriminate]. inversion Hc; subst.
